@@ -232,6 +232,12 @@ void msg_ops(G &g, int nops, bool with_names, bool with_replies, bool forged, bo
       std::vector<std::string> s = {dest, path, iface, member, err, fs};
       int nargs = (int)g.r.below(3);
       for (int k = 0; k < nargs; k++) s.push_back("r:" + std::to_string(g.r.below(100000)));
+      if (forged && g.r.pct(4)) {
+        // one header field twice (the second copy of an injected container-instance must not get through either)
+        static const int codes[] = {10, 10, 10, 7, 6, 8, 3, 2};
+        int64_t dup = codes[g.r.below(8)] | (g.r.pct(50) ? 0x100 : 0);
+        g.add(g.mk("send", c, {type, flags, g.deliver_mode(), rs, unk, ci, be, 0, 0, 0, 0, 0, -100, dup}, s));
+      } else
       g.add(g.mk("send", c, {type, flags, g.deliver_mode(), rs, unk, ci, be, shuffle}, s));
     } else if (x < 70 && with_replies) {
       g.add(g.mk("reply", c, {(int64_t)g.r.below(4), g.r.pct(75) ? (int64_t)g.r.below(2) : (int64_t)g.r.range(2, 4), g.deliver_mode()}));
@@ -270,6 +276,15 @@ Plan gen_c05(uint64_t seed, bool th) {
   g.connect_all(g.r.pct(30), g.r.pct(40));
   // some clients eavesdrop
   if (g.r.pct(30)) g.add(g.mk("addmatch", g.a_client(), {-1}, {"eavesdrop='true'"}));
+  // rules that name a destination WITHOUT asking to eavesdrop: legal, and they must never bring in other
+  // connections' unicast traffic ("to no other connection that has not been granted eavesdropping")
+  if (g.r.pct(30)) {
+    int n = (int)g.r.range(1, 3);
+    for (int i = 0; i < n; i++) {
+      std::string d = "$u" + std::to_string(g.a_client());   // (the key is specified for unique names only)
+      g.add(g.mk("addmatch", g.a_client(), {-1}, {(g.r.pct(50) ? std::string("") : std::string("type='method_call',")) + "destination='" + d + "'"}));
+    }
+  }
   msg_ops(g, (int)g.r.range(8, th ? 70 : 30), true, true, false, g.r.pct(30));
   return g.p;
 }
